@@ -1,0 +1,191 @@
+//! In-memory replacement for `tokio::net::{TcpListener, TcpStream}`.
+//!
+//! While the registry is inactive every call is forwarded to tokio (real sockets). When a harness
+//! activates it, `TcpListener::bind` returns an in-memory accept queue and `TcpStream::connect`
+//! returns the in-memory end registered for that address (connection refused otherwise).
+
+use std::collections::HashMap;
+use std::io;
+use std::pin::Pin;
+use std::sync::Mutex;
+use std::task::{Context, Poll};
+use tokio::io::{AsyncRead, AsyncWrite, DuplexStream, ReadBuf};
+use tokio::sync::mpsc;
+
+struct Registry {
+    active: bool,
+    outgoing: HashMap<String, TcpStream>,
+    incoming_tx: Option<mpsc::UnboundedSender<TcpStream>>,
+    incoming_rx: Option<mpsc::UnboundedReceiver<TcpStream>>,
+    connects: Vec<String>,
+}
+
+static REGISTRY: Mutex<Option<Registry>> = Mutex::new(None);
+
+fn with_registry<R>(f: impl FnOnce(&mut Registry) -> R) -> R {
+    let mut guard = REGISTRY.lock().unwrap_or_else(|e| e.into_inner());
+    if guard.is_none() {
+        *guard = Some(Registry {
+            active: false,
+            outgoing: HashMap::new(),
+            incoming_tx: None,
+            incoming_rx: None,
+            connects: vec![],
+        });
+    }
+    f(guard.as_mut().unwrap())
+}
+
+/// Activate the in-memory network (fresh state).
+pub fn activate() {
+    with_registry(|r| {
+        let (tx, rx) = mpsc::unbounded_channel();
+        r.active = true;
+        r.outgoing.clear();
+        r.connects.clear();
+        r.incoming_tx = Some(tx);
+        r.incoming_rx = Some(rx);
+    });
+}
+
+/// Back to real sockets.
+pub fn deactivate() {
+    with_registry(|r| {
+        r.active = false;
+        r.outgoing.clear();
+        r.incoming_tx = None;
+        r.incoming_rx = None;
+    });
+}
+
+/// Register a remote peer reachable at `addr`; returns the remote end of the stream the client will
+/// get from `TcpStream::connect(addr)`.
+pub fn register_outgoing(addr: &str, buf: usize) -> DuplexStream {
+    let (ours, theirs) = tokio::io::duplex(buf);
+    with_registry(|r| {
+        r.outgoing
+            .insert(addr.to_string(), TcpStream::Mem(ours, addr.to_string()))
+    });
+    theirs
+}
+
+/// A remote peer at `addr` connects to the client's listener; returns the remote end.
+pub fn connect_incoming(addr: &str, buf: usize) -> Option<DuplexStream> {
+    let (ours, theirs) = tokio::io::duplex(buf);
+    let sent = with_registry(|r| match &r.incoming_tx {
+        Some(tx) => tx.send(TcpStream::Mem(ours, addr.to_string())).is_ok(),
+        None => false,
+    });
+    match sent {
+        true => Some(theirs),
+        false => None,
+    }
+}
+
+/// Addresses the client tried to connect to, in order.
+pub fn connect_log() -> Vec<String> {
+    with_registry(|r| r.connects.clone())
+}
+
+pub enum TcpStream {
+    Real(tokio::net::TcpStream),
+    Mem(DuplexStream, String),
+}
+
+impl TcpStream {
+    pub async fn connect(addr: &String) -> io::Result<TcpStream> {
+        let (active, found) = with_registry(|r| {
+            if r.active {
+                r.connects.push(addr.clone());
+            }
+            (r.active, r.outgoing.remove(addr))
+        });
+        match (active, found) {
+            (true, Some(stream)) => Ok(stream),
+            (true, None) => Err(io::Error::new(io::ErrorKind::ConnectionRefused, "refused")),
+            (false, _) => Ok(TcpStream::Real(tokio::net::TcpStream::connect(addr).await?)),
+        }
+    }
+
+    pub fn peer_addr(&self) -> io::Result<String> {
+        match self {
+            TcpStream::Real(s) => s.peer_addr().map(|a| a.to_string()),
+            TcpStream::Mem(_, addr) => Ok(addr.clone()),
+        }
+    }
+}
+
+impl AsyncRead for TcpStream {
+    fn poll_read(
+        self: Pin<&mut Self>,
+        cx: &mut Context<'_>,
+        buf: &mut ReadBuf<'_>,
+    ) -> Poll<io::Result<()>> {
+        match self.get_mut() {
+            TcpStream::Real(s) => Pin::new(s).poll_read(cx, buf),
+            TcpStream::Mem(s, _) => Pin::new(s).poll_read(cx, buf),
+        }
+    }
+}
+
+impl AsyncWrite for TcpStream {
+    fn poll_write(
+        self: Pin<&mut Self>,
+        cx: &mut Context<'_>,
+        buf: &[u8],
+    ) -> Poll<io::Result<usize>> {
+        match self.get_mut() {
+            TcpStream::Real(s) => Pin::new(s).poll_write(cx, buf),
+            TcpStream::Mem(s, _) => Pin::new(s).poll_write(cx, buf),
+        }
+    }
+
+    fn poll_flush(self: Pin<&mut Self>, cx: &mut Context<'_>) -> Poll<io::Result<()>> {
+        match self.get_mut() {
+            TcpStream::Real(s) => Pin::new(s).poll_flush(cx),
+            TcpStream::Mem(s, _) => Pin::new(s).poll_flush(cx),
+        }
+    }
+
+    fn poll_shutdown(self: Pin<&mut Self>, cx: &mut Context<'_>) -> Poll<io::Result<()>> {
+        match self.get_mut() {
+            TcpStream::Real(s) => Pin::new(s).poll_shutdown(cx),
+            TcpStream::Mem(s, _) => Pin::new(s).poll_shutdown(cx),
+        }
+    }
+}
+
+pub enum TcpListener {
+    Real(tokio::net::TcpListener),
+    Mem(tokio::sync::Mutex<mpsc::UnboundedReceiver<TcpStream>>),
+}
+
+impl TcpListener {
+    pub async fn bind<A: tokio::net::ToSocketAddrs>(addr: A) -> io::Result<TcpListener> {
+        let rx = with_registry(|r| match r.active {
+            true => Some(r.incoming_rx.take()),
+            false => None,
+        });
+        match rx {
+            Some(Some(rx)) => Ok(TcpListener::Mem(tokio::sync::Mutex::new(rx))),
+            Some(None) => Err(io::Error::new(io::ErrorKind::AddrInUse, "in use")),
+            None => Ok(TcpListener::Real(tokio::net::TcpListener::bind(addr).await?)),
+        }
+    }
+
+    pub async fn accept(&self) -> io::Result<(TcpStream, String)> {
+        match self {
+            TcpListener::Real(l) => {
+                let (s, a) = l.accept().await?;
+                Ok((TcpStream::Real(s), a.to_string()))
+            }
+            TcpListener::Mem(rx) => match rx.lock().await.recv().await {
+                Some(s) => {
+                    let a = s.peer_addr()?;
+                    Ok((s, a))
+                }
+                None => std::future::pending().await,
+            },
+        }
+    }
+}
